@@ -20,6 +20,7 @@ from vlib import observe, rewrite, runner
 ID = "C16"
 LEVEL = "exploration"
 EXHAUSTIVE = False
+EXHAUSTIVE_STREAMS = {'positions': 'every case x quoting x parts x position x dialect combination (complete)', 'helper/equality': 'sampled'}
 RULE = ("positions: every combination of case pattern x quoting x number of name parts x syntactic position x dialect (7 dialects covering the three quote "
         "styles), enumerated exhaustively; helper / equality: Hypothesis. Non-trivial = the spelling is not plain lower-case unquoted (it has upper-case "
         "letters or quotes or >= 2 parts); distinct = distinct (SQL text, dialect) / distinct drawn value.")
